@@ -434,3 +434,38 @@ package types
 //@   loop 1 invariant (forall k int :: 0 <= k && k <= idx ==> hi(q.Branches[k].SessionType) <= visitedUpTo(q.Branches, idx, SessionType(q)))
 //@   loop 1 invariant q.Mode == inForce(old(q.Mode), currentMode)
 //@   loop 1 invariant (forall k int :: 0 <= k && k <= idx ==> topAssigned(q.Branches[k].SessionType, inForce(old(q.Mode), currentMode), dom(labelledTypesEnv), vals(labelledTypesEnv)))
+
+// (d) the two entry points
+
+//@ contract AddMissingModalities
+//@   requires t != nil ==> shiftSourcesSet(deref(t)) && treeOK(deref(t))
+//@   requires[C09] t != nil ==> deref(t) != nil && shapeOK(deref(t))
+//@   ensures C16.addInferred: t != nil && !unsetM(old(infer(deref(t), dom(labelledTypesEnv), vals(labelledTypesEnv), emptyStrSet))) ==>
+//@        topAssigned(deref(t), old(infer(deref(t), dom(labelledTypesEnv), vals(labelledTypesEnv), emptyStrSet)), dom(labelledTypesEnv), vals(labelledTypesEnv))
+//@   ensures C16.addDefault: t != nil && unsetM(old(infer(deref(t), dom(labelledTypesEnv), vals(labelledTypesEnv), emptyStrSet))) ==>
+//@        (exists m Modality :: is(m, ReplicableMode) && topAssigned(deref(t), m, dom(labelledTypesEnv), vals(labelledTypesEnv)))
+//@   ensures C16.addKept: modesKept()
+//@   safety C09
+
+// the definitions form a forest, numbered left to right above some lower bound
+//@ spec minLo() int
+//@ macro defsTree(defs []SessionTypeDefinition) bool = (forall k int :: 0 <= k && k < len(defs) ==> defs[k].SessionType != nil && shiftSourcesSet(defs[k].SessionType) && treeOK(defs[k].SessionType) && minLo() < lo(defs[k].SessionType)) &&
+//@        (forall j int, k int :: 0 <= j && j < k && k < len(defs) ==> hi(defs[j].SessionType) < lo(defs[k].SessionType))
+//@ macro visitedDefs(defs []SessionTypeDefinition, idx int) int = ite(idx < 0, minLo(), hi(defs[idx].SessionType))
+//@ macro defInfer(defs []SessionTypeDefinition, k int) Modality = infer(defs[k].SessionType, defNames(defs, len(defs)), defVals(defs, len(defs)), emptyStrSet)
+
+//@ contract SetModalityTypeDef
+//@   requires defsTree(typesDef)
+//@   requires[C09] defsShape(typesDef)
+//@   ensures C16.defInferred: forall k int :: 0 <= k && k < len(typesDef) && !unsetM(old(defInfer(typesDef, k))) ==> typesDef[k].Modality == old(defInfer(typesDef, k))
+//@   ensures C16.defDefault: forall k int :: 0 <= k && k < len(typesDef) && unsetM(old(defInfer(typesDef, k))) ==> is(typesDef[k].Modality, ReplicableMode)
+//@   ensures C16.defAssigned: forall k int :: 0 <= k && k < len(typesDef) ==> topAssigned(typesDef[k].SessionType, typesDef[k].Modality, defNames(typesDef, len(typesDef)), defVals(typesDef, len(typesDef)))
+//@   ensures C16.defKept: modesKept()
+//@   loop 1 invariant labelledTypesEnv != nil && dom(labelledTypesEnv) == old(defNames(typesDef, len(typesDef)))
+//@   loop 1 invariant (forall n string :: has(labelledTypesEnv, n) ==> labelledTypesEnv[n].Type == old(defVals(typesDef, len(typesDef)))[n].Type)
+//@   loop 1 invariant (forall k int :: 0 <= k && k <= idx && !unsetM(old(defInfer(typesDef, k))) ==> typesDef[k].Modality == old(defInfer(typesDef, k)))
+//@   loop 1 invariant (forall k int :: 0 <= k && k <= idx && unsetM(old(defInfer(typesDef, k))) ==> is(typesDef[k].Modality, ReplicableMode))
+//@   loop 2 invariant modesKept() && modesBeyondKept(visitedDefs(typesDef, idx))
+//@   loop 2 invariant (forall k int :: 0 <= k && k <= idx ==> hi(typesDef[k].SessionType) <= visitedDefs(typesDef, idx))
+//@   loop 2 invariant (forall k int :: 0 <= k && k <= idx ==> topAssigned(typesDef[k].SessionType, typesDef[k].Modality, dom(labelledTypesEnv), vals(labelledTypesEnv)))
+//@   safety C09
